@@ -17,6 +17,9 @@ type DQ struct {
 	Genuine    bool
 	Handle     uintptr // register/unregister: the handle's address
 	Suppressed bool    // new: the event's globalCBsSuppressed flag (observed, used by C09)
+	// ID: register/unregister: the harness registration id the handle belonged to WHEN the event was dequeued (-1:
+	// untagged). Handle addresses are reused once a handle is gone, so the id is resolved then and there.
+	ID int
 }
 
 type regKeyT struct{}
@@ -61,13 +64,15 @@ func (t *CBTrace) OnHook(s *Scenario, name string, ctx context.Context, args []a
 			return
 		}
 		if evKind(args[1]) == "register" {
-			id, ok := ctx.Value(RegKey).(int)
-			if !ok {
-				return
-			}
 			h := reflect.ValueOf(args[1]).Elem().FieldByName("handle").Pointer()
+			id, ok := ctx.Value(RegKey).(int)
 			t.mu.Lock()
-			t.handles[h] = id
+			if ok {
+				t.handles[h] = id
+			} else {
+				// an untagged (fence) registration: its handle may sit at the address a long-gone tagged handle had
+				delete(t.handles, h)
+			}
 			t.mu.Unlock()
 		}
 	case "cb.dequeue":
@@ -83,11 +88,13 @@ func (t *CBTrace) OnHook(s *Scenario, name string, ctx context.Context, args []a
 			d.Suppressed = ev.FieldByName("globalCBsSuppressed").Bool()
 		case "register":
 			d.Handle = ev.FieldByName("handle").Pointer()
+			d.ID = t.HandleID(d.Handle)
 			tok := ev.FieldByName("serial").Elem()
 			d.Serial = tok.FieldByName("s").Uint()
 			d.Genuine = !tok.FieldByName("cfg").IsNil()
 		case "unregister":
 			d.Handle = ev.FieldByName("handle").Pointer()
+			d.ID = t.HandleID(d.Handle)
 		}
 		t.mu.Lock()
 		t.dq = append(t.dq, d)
@@ -197,16 +204,22 @@ func Predict(dq []DQ, tr *CBTrace, cfgBySerial map[uint64]*Cfg, tokenCfg map[int
 				out = append(out, Call{Kind: "err", Tag: "global-err"})
 			}
 		case "register":
-			id := tr.HandleID(d.Handle)
+			id := d.ID
 			if id < 0 {
 				continue // untagged (fence) registration: its callback is a no-op nobody logs
 			}
-			if d.Genuine && d.Serial < lastSerial {
+			// whether the token was a genuine one is what the CLIENT passed in (a config came with it), not what the
+			// dequeued event still says
+			genuine := d.Genuine
+			if c, known := tokenCfg[id]; known && (c != nil) != d.Genuine {
+				return out, fmt.Sprintf("registration %d was made with a token whose config was nil=%v, but the callback goroutine dequeued it with config nil=%v (serial %d)", id, c == nil, !d.Genuine, d.Serial)
+			}
+			if genuine && d.Serial < lastSerial {
 				out = append(out, Call{Kind: "reg", Handle: id, Old: tokenCfg[id], New: cfgBySerial[lastSerial], Tag: "catchup"})
 			}
 			lives = append(lives, live{id: id, token: d.Serial})
 		case "unregister":
-			id := tr.HandleID(d.Handle)
+			id := d.ID
 			for k, l := range lives {
 				if l.id == id {
 					lives = append(lives[:k:k], lives[k+1:]...)
